@@ -21,8 +21,8 @@ CONSTANTS
   Apis = {"para", "parabm"}
   HLvls = {1, 4}
   HTexts = {"", "Alpha"}
-  Styles = {"Heading2", "Title"}
-  MLs = {0, 1, 3}
+  Styles = {"Heading2"}
+  MLs = {1, 3}
   TSLvls = {0, 1}
   Files = {FALSE}
   MaxK = 2
@@ -30,7 +30,7 @@ CONSTANTS
   MaxItems = 2
   MaxNotes = 1
   MaxHeads = 2
-  MaxTocs = 2
+  MaxTocs = 1
   MaxAlloc = 1
 INVARIANTS Inv_C15 Inv_Ids Inv_Idem
 PROPERTIES Act_TOC Act_Notes Act_Frame
